@@ -497,8 +497,9 @@ def live_recordlayer(ctx, cfg, receiver, only_spec=None, variant=0):
 # (L2) connection level: alert on the wire, closed, not resumable, no data delivered
 
 L2_CLASSES = ["flip", "flip-last", "type", "trunc", "ext", "replay", "swap", "drop", "reflect", "other-connection",
-              "plaintext-appdata", "plaintext-handshake", "garbage", "oversize", "sslv2-framed"]
-L2_CLASSES_13 = ["outer-type", "outer-version", "zero-body", "append-zeros", "all-zero-inner", "plaintext-ccs",
+              "plaintext-appdata", "plaintext-handshake", "garbage", "oversize", "sslv2-framed", "plaintext-ccs",
+              "plaintext-ccs-after-data"]
+L2_CLASSES_13 = ["outer-type", "outer-version", "zero-body", "append-zeros", "all-zero-inner",
                  "plaintext-alert-after-data", "old-key-after-keyupdate", "plaintext-alert-at-seq0",
                  "plaintext-alert-mid-handshake"]
 
@@ -556,7 +557,14 @@ def build_l2(cls, sent, refl, other, rng, cfg):
     if cls == "all-zero-inner":
         return [(t, v, bytes(len(b)))], 0, bad | {"unexpected_message"}
     if cls == "plaintext-ccs":
-        return [(20, (3, 3), b"\x01")], 0, {"unexpected_message"}
+        # an unprotected ChangeCipherSpec spliced in after the handshake: never to be skipped silently
+        # (TLS 1.3: the record layer hands it up, the connection layer must refuse it; <= 1.2: it is
+        # processed as a protected record and fails)
+        return [(20, (3, 3) if cfg["ver"] >= (3, 4) else cfg["ver"], b"\x01")], 0, \
+            ({"unexpected_message"} if cfg["ver"] >= (3, 4) else bad | {"unexpected_message"})
+    if cls == "plaintext-ccs-after-data":
+        return [r0, (20, (3, 3) if cfg["ver"] >= (3, 4) else cfg["ver"], b"\x01")], 1, \
+            ({"unexpected_message"} if cfg["ver"] >= (3, 4) else bad | {"unexpected_message"})
     return None, 0, bad
 
 
@@ -573,10 +581,16 @@ def drive_read(L, who, mode):
             return bytes(delivered), r[0], (r[1] if r[0] == "error" else None)
         return bytes(delivered), "ok", None
     # _getMsg driven directly (what every handshake step uses), bypassing readAsync's own handler
-    from tlslite.constants import ContentType
+    from tlslite.constants import ContentType, HandshakeType
     from tlslite.messages import ApplicationData
     for _ in range(8):
-        r = L.op(who, conn._getMsg(ContentType.application_data), pump_other=False)
+        if conn.version > (3, 3):
+            # what readAsync expects after a TLS 1.3 handshake
+            sec = (HandshakeType.new_session_ticket, HandshakeType.key_update) if conn._client else (HandshakeType.key_update,)
+            gen = conn._getMsg((ContentType.application_data, ContentType.handshake), sec)
+        else:
+            gen = conn._getMsg(ContentType.application_data)
+        r = L.op(who, gen, pump_other=False)
         if r[0] == "ok" and isinstance(r[1], ApplicationData):
             delivered += bytes(r[1].write())
             continue
@@ -806,6 +820,16 @@ def live_streams(ctx):
                 for mode in modes:
                     who = rng.choice(["client", "server"])
                     live_connection_case(ctx, cfg, who, cls, mode)
+            if cfg["ver"] >= (3, 4):
+                # unprotected ChangeCipherSpec after the handshake: both roles x {client with / without a
+                # certificate, server with / without reqCert} x {before / after the first protected record}
+                n = 0
+                for who in ("client", "server"):
+                    for (cc, rq) in ((False, False), (True, True), (False, True)):
+                        for cls in ("plaintext-ccs", "plaintext-ccs-after-data"):
+                            n += 1
+                            live_connection_case(ctx, dict(cfg, client_cert=cc, req_cert=rq), who, cls,
+                                                 ("read", "getmsg")[(n + i) % 2])
         except Exception as e:  # noqa: B902 - the machinery must not die on one configuration
             import traceback
             ctx.violation("c02:exception", "exception in the receive path or the harness: %s: %s" % (type(e).__name__, e),
